@@ -63,6 +63,7 @@ type ShellLexer struct {
 	sinceFor       int
 	sinceCase      int
 	inCasePattern  bool // true inside (pattern1|pattern2|pattern3); works only for simple cases
+	afterAssign    bool // the previous token was an assignment word; a command name follows
 	error          string
 	result         *MkShList
 }
@@ -106,6 +107,8 @@ func (lex *ShellLexer) Lex(lval *shyySymType) (ttype int) {
 		lex.current = token
 		lex.remaining = lex.remaining[1:]
 	}
+	afterAssign := lex.afterAssign
+	lex.afterAssign = false
 
 	switch token {
 	case ";":
@@ -177,6 +180,10 @@ func (lex *ShellLexer) Lex(lval *shyySymType) (ttype int) {
 	if lex.atCommandStart {
 		lex.sinceCase = -1
 		lex.sinceFor = -1
+	}
+	// Reserved words are only recognized where a command may start: neither
+	// in the pattern of a case item nor directly after an assignment word.
+	if lex.atCommandStart && !lex.inCasePattern && !afterAssign {
 		switch token {
 		case "if":
 			return tkIF
@@ -238,14 +245,15 @@ func (lex *ShellLexer) Lex(lval *shyySymType) (ttype int) {
 		ttype = tkIN
 		lex.atCommandStart = false
 		lex.inCasePattern = true
-	case (lex.atCommandStart || lex.sinceCase == 3) && token == "esac":
+	case (lex.atCommandStart && !afterAssign || lex.sinceCase == 3) && token == "esac":
 		ttype = tkESAC
 		// Like after "done" and "fi", further reserved words such as
 		// "done", "fi" or "}" may follow.
 		lex.atCommandStart = true
 		lex.inCasePattern = false
-	case lex.atCommandStart && matches(token, `^[A-Za-z_]\w*=`):
+	case lex.atCommandStart && !lex.inCasePattern && matches(token, `^[A-Za-z_]\w*=`):
 		ttype = tkASSIGNMENT_WORD
+		lex.afterAssign = true
 		p := NewShTokenizer(nil, token)
 		lval.Word = p.ShToken()
 	case hasPrefix(token, "#"):
